@@ -190,7 +190,24 @@ Seqs == FSeqs \cup TSeqs
    the application uses the queue and the probes run. *)
 PressUdp == {"udp-unread", "udp-late", "udp-small", "udp-frag"}
 Pressure == [k : {"press"}, q : PressUdp \cup {"syn-backlog", "tcp-rcvbuf", "frag-mem", "neigh"}]
-Cases == Frames \cup Seqs \cup Pressure
+(* Segment sequences on an ESTABLISHED connection (opened passively through
+   the listener, or actively by the stack), played by a peer that knows the
+   real sequence numbers.  A letter is a segment at a fixed place of the peer's
+   stream (B = first byte after the SYN, blocks of 5 bytes):
+     D0 D1 D2   data block 0/1/2            D1F D2F  data block + FIN
+     OV         5 bytes at B+3 (overlap)    F0 F1 F2 bare FIN at B / B+5 / B+10
+     Z1         empty ACK at B+5            RI RO    RST in / out of the window
+     WE         5 bytes straddling the right window edge
+     U0         block 0 with URG            BO       block 0 with a truncated option
+     SK         block 1 carrying a SACK block   SY   the SYN again
+   so that orders like "D1F D0" are data+FIN arriving out of order and then
+   the gap being filled. *)
+EAlpha == {"D0", "D1", "D2", "D1F", "D2F", "OV", "F0", "F1", "F2", "Z1", "RI", "RO", "WE", "U0", "BO", "SK", "SY"}
+ECore == {"D0", "D1", "D1F", "D2F", "F1", "OV", "Z1", "RI"}
+ESeqs == [k : {"eseq"}, mode : {"pas"}, sk : {0, 1}, ls : SeqsOver(EAlpha, T(3, 2))]
+         \cup [k : {"eseq"}, mode : {"act"}, sk : {1}, ls : SeqsOver(EAlpha, 2)]
+         \cup T([k : {"eseq"}, mode : {"pas"}, sk : {1}, ls : [1..4 -> ECore]], {})
+Cases == Frames \cup Seqs \cup Pressure \cup ESeqs
 
 -----------------------------------------------------------------------------
 (* Numbers for the concretiser *)
